@@ -9,7 +9,10 @@
    ladders against the analytic input / transfer resistance of a sealed cable. *)
 From Coq Require Import Reals.
 From Coquelicot Require Import Coquelicot.
+From Coq Require Import List Lia.
+Import ListNotations.
 From JV Require Import Prim RLemmas GCellUtils GChannels CableConservation ConvergenceFacts SpatialConsistency.
+From JV Require Import HinesArr HinesCheck HinesArrFacts HinesIdx HinesIdxF AsmStruct AssembleM AsmIdx AssembleGraph AsmIdxF GraphStability GraphResidual StabilityInst.
 Local Open Scope R_scope.
 
 (* one implicit step of a passive compartment contracts the distance to
@@ -51,3 +54,95 @@ Proof. exact axial_term_consistent. Qed.
 
 Example C15_nonvacuous : 1 / 1000 <= 1 / 40 <= 1.
 Proof. exact c15_example. Qed.
+
+(* ================= stability, and convergence from consistency (array level, every morphology) =================
+   The implicit step does not amplify in the maximum norm: |x_c| <= max_c |v_c + dt ct_c| whenever vt >= 0, for any
+   structure on which the graph system is defined, any positive conductances and any dt > 0. *)
+Theorem C15_implicit_step_does_not_amplify :
+  forall (ly : layout) (tp : topo), wf ly tp ->
+  forall (mask : nat -> nat) (ncomp : nat) (es : list (edge R)) (dt : R) (group child_inds par_inds : list nat),
+  graph_struct ly tp mask ncomp es group child_inds par_inds -> graph_struct_bp ly mask ncomp es group child_inds par_inds ->
+  (1 <= ncomp)%nat -> 0 < dt -> (forall e, In e es -> 0 < e_g R e) ->
+  forall (v vt ct x y : nat -> R) (K : R),
+  (forall c, (c < ncomp)%nat -> 0 <= vt c) -> graph_eq ly tp mask ncomp es v vt ct dt x y ->
+  0 <= K -> (forall c, (c < ncomp)%nat -> Rabs (v c + dt * ct c) <= K) ->
+  forall c, (c < ncomp)%nat -> Rabs (x (mask c)) <= K.
+Proof. exact graph_stability. Qed.
+
+(* Lax: stability + consistency => convergence.  For EVERY cell, any time-dependent non-negative membrane conductances
+   vt^n and terms ct^n: if a reference trajectory U^n (e.g. the exact cable solution at the compartment centres)
+   satisfies the scheme up to residuals |tau^n_c| <= eps (its local truncation error; C15_axial_term_second_order_consistent bounds
+   it by C h^2 on the uniform cable), the simulated voltages obey |V^n_c - U^n_c| <= E0 + n dt eps for all n. *)
+Theorem C15_error_accumulates_for_every_cell :
+  forall (ps ns : list nat) (es : list (edge R)) (dt : R) (V U vtn ctn taun : nat -> nat -> R) (E0 eps : R),
+  (1 <= length ps)%nat -> (forall b, (1 <= b)%nat -> (b < length ps)%nat -> (nth b ps 0 < b)%nat) ->
+  (forall b, (b < length ps)%nat -> (1 <= nth b ns 0)%nat) ->
+  map strip es = triples_of ps ns ->
+  0 < dt -> (forall e, In e es -> 0 < e_g R e) -> (forall n i, (i < total ps ns)%nat -> 0 <= vtn n i) ->
+  let ly := layout_of ps ns in let tp := topo_of ps in let mask := nthD (mask_of ps ns) in let N := total ps ns in
+  (forall n c, (c < N)%nat ->
+     V (S n) c = sv (run R Rplus Rminus Rmult Rdiv 0 1 ly (ops_of_tree ps ns)
+                       (assemble R Rplus Rminus Rmult 0 1 mask N es (V n) (vtn n) (ctn n) dt (group_of ps) (child_inds_of ps) (par_inds_of ps))) (mask c)) ->
+  (forall n, exists x y, graph_eq ly tp mask N es (U n) (vtn n) (fun c => ctn n c + taun n c) dt x y /\ forall c, (c < N)%nat -> U (S n) c = x (mask c)) ->
+  0 <= E0 -> 0 <= eps ->
+  (forall c, (c < N)%nat -> Rabs (V 0%nat c - U 0%nat c) <= E0) -> (forall n c, (c < N)%nat -> Rabs (taun n c) <= eps) ->
+  forall n c, (c < N)%nat -> Rabs (V n c - U n c) <= E0 + INR n * (dt * eps).
+Proof. exact cell_simulation_error. Qed.
+
+Theorem C15_error_accumulates_for_every_network :
+  forall (ps ns : list nat) (rs : list bool) (es : list (edge R)) (dt : R) (V U vtn ctn taun : nat -> nat -> R) (E0 eps : R),
+  (1 <= length ps)%nat -> (forall b, (b < length ps)%nat -> is_root rs b = false -> (nth b ps 0 < b)%nat) ->
+  (forall b, (b < length ps)%nat -> (1 <= nth b ns 0)%nat) ->
+  map strip es = triples_ofF ps ns rs ->
+  0 < dt -> (forall e, In e es -> 0 < e_g R e) -> (forall n i, (i < total ps ns)%nat -> 0 <= vtn n i) ->
+  let ly := layout_ofF ps ns rs in let tp := topo_ofF ps rs in let mask := nthD (mask_ofF ps ns rs) in let N := total ps ns in
+  (forall n c, (c < N)%nat ->
+     V (S n) c = sv (run R Rplus Rminus Rmult Rdiv 0 1 ly (ops_of_forest ps ns rs)
+                       (assemble R Rplus Rminus Rmult 0 1 mask N es (V n) (vtn n) (ctn n) dt (group_ofF ps rs) (child_inds_ofF ps rs) (par_inds_ofF ps rs))) (mask c)) ->
+  (forall n, exists x y, graph_eq ly tp mask N es (U n) (vtn n) (fun c => ctn n c + taun n c) dt x y /\ forall c, (c < N)%nat -> U (S n) c = x (mask c)) ->
+  0 <= E0 -> 0 <= eps ->
+  (forall c, (c < N)%nat -> Rabs (V 0%nat c - U 0%nat c) <= E0) -> (forall n c, (c < N)%nat -> Rabs (taun n c) <= eps) ->
+  forall n c, (c < N)%nat -> Rabs (V n c - U n c) <= E0 + INR n * (dt * eps).
+Proof. exact network_simulation_error. Qed.
+
+(* ... and against ANY reference sequence U^n, with its explicit local truncation error: complete U at the branch
+   points by Kirchhoff balance; residual^n_c = [U^{n+1}_c (1 + dt vt_c) + dt sum_{e into c} g_e (U^{n+1}_c - value at
+   source e) - U^n_c] / dt - ct_c.  Global error <= initial error + n dt max |residual|. *)
+Theorem C15_error_against_any_reference_for_every_cell :
+  forall (ps ns : list nat) (es : list (edge R)) (dt : R) (V U vtn ctn : nat -> nat -> R) (E0 eps : R),
+  (1 <= length ps)%nat -> (forall b, (1 <= b)%nat -> (b < length ps)%nat -> (nth b ps 0 < b)%nat) ->
+  (forall b, (b < length ps)%nat -> (1 <= nth b ns 0)%nat) ->
+  map strip es = triples_of ps ns ->
+  0 < dt -> (forall e, In e es -> 0 < e_g R e) -> (forall n i, (i < total ps ns)%nat -> 0 <= vtn n i) ->
+  let ly := layout_of ps ns in let mask := nthD (mask_of ps ns) in let N := total ps ns in
+  (forall n c, (c < N)%nat ->
+     V (S n) c = sv (run R Rplus Rminus Rmult Rdiv 0 1 ly (ops_of_tree ps ns)
+                       (assemble R Rplus Rminus Rmult 0 1 mask N es (V n) (vtn n) (ctn n) dt (group_of ps) (child_inds_of ps) (par_inds_of ps))) (mask c)) ->
+  0 <= E0 -> 0 <= eps ->
+  (forall c, (c < N)%nat -> Rabs (V 0%nat c - U 0%nat c) <= E0) ->
+  (forall n c, (c < N)%nat -> Rabs (residual N es dt (U n) (U (S n)) (vtn n) (ctn n) c) <= eps) ->
+  forall n c, (c < N)%nat -> Rabs (V n c - U n c) <= E0 + INR n * (dt * eps).
+Proof. exact cell_error_against_any_reference. Qed.
+
+Theorem C15_error_against_any_reference_for_every_network :
+  forall (ps ns : list nat) (rs : list bool) (es : list (edge R)) (dt : R) (V U vtn ctn : nat -> nat -> R) (E0 eps : R),
+  (1 <= length ps)%nat -> (forall b, (b < length ps)%nat -> is_root rs b = false -> (nth b ps 0 < b)%nat) ->
+  (forall b, (b < length ps)%nat -> (1 <= nth b ns 0)%nat) ->
+  map strip es = triples_ofF ps ns rs ->
+  0 < dt -> (forall e, In e es -> 0 < e_g R e) -> (forall n i, (i < total ps ns)%nat -> 0 <= vtn n i) ->
+  let ly := layout_ofF ps ns rs in let mask := nthD (mask_ofF ps ns rs) in let N := total ps ns in
+  (forall n c, (c < N)%nat ->
+     V (S n) c = sv (run R Rplus Rminus Rmult Rdiv 0 1 ly (ops_of_forest ps ns rs)
+                       (assemble R Rplus Rminus Rmult 0 1 mask N es (V n) (vtn n) (ctn n) dt (group_ofF ps rs) (child_inds_ofF ps rs) (par_inds_ofF ps rs))) (mask c)) ->
+  0 <= E0 -> 0 <= eps ->
+  (forall c, (c < N)%nat -> Rabs (V 0%nat c - U 0%nat c) <= E0) ->
+  (forall n c, (c < N)%nat -> Rabs (residual N es dt (U n) (U (S n)) (vtn n) (ctn n) c) <= eps) ->
+  forall n c, (c < N)%nat -> Rabs (V n c - U n c) <= E0 + INR n * (dt * eps).
+Proof. exact network_error_against_any_reference. Qed.
+
+(* non-vacuity: a one-compartment cell; the trivial reference U = V has residual-free steps only if it IS the
+   simulation - here the hypotheses on the structure: parents [-1], one compartment, no edges *)
+Example C15_stability_nonvacuous :
+  (1 <= length [0%nat])%nat /\ (forall b, (b < length [0%nat])%nat -> (1 <= nth b [1%nat] 0%nat)%nat) /\
+  triples_of [0%nat] [1%nat] = [] /\ total [0%nat] [1%nat] = 1%nat.
+Proof. split; [cbn; lia|]. split; [intros b Hb; cbn in Hb; assert (b = 0%nat) by lia; subst; cbn; lia|]. split; vm_compute; reflexivity. Qed.
